@@ -29,6 +29,7 @@ func init() {
 			{ID: "C14.9", Desc: "directory names of fragmented keys carry a marker outside the file-name alphabet (no key's file is another key's directory)", Run: ruleC14_9, MinSites: 1},
 			{ID: "C14.8", Desc: "Set can create its temporary file for every key (its name does not extend the entry's file name)", Run: func(c *Ctx) { ruleC15_1(c); renameRule(c, "C15.1", "C14.8") }, MinSites: 1},
 			{ID: "C14.7", Desc: "a file name returned as one path component is bounded by the file-name limit", Run: ruleC14_7, MinSites: 1},
+			{ID: "C14.10", Desc: "every key has a file name: the namer returns a text derived from the key only where it was tested to be non-empty (the empty key gets a name of its own)", Run: ruleC14_10, MinSites: 1},
 		},
 	})
 }
@@ -956,14 +957,28 @@ func ruleC14_9(c *Ctx) {
 				if !ok {
 					continue
 				}
-				if add, ok := st.Val.(*ssa.BinOp); ok && add.Op == token.ADD {
-					for _, o := range []ssa.Value{add.X, add.Y} {
-						if k, ok := constStr(o); ok && outside(k) {
-							markers[k] = true
-						}
+				// the appended component may be chosen by a branch (`part := frag; if more { part += marker }`)
+				vals := []ssa.Value{st.Val}
+				seenPhi := map[ssa.Value]bool{}
+				for i := 0; i < len(vals); i++ {
+					if phi, ok := vals[i].(*ssa.Phi); ok && !seenPhi[phi] {
+						seenPhi[phi] = true
+						vals = append(vals, phi.Edges...)
 					}
-				} else {
-					plainLeaf = true
+				}
+				for _, v := range vals {
+					if _, isPhi := v.(*ssa.Phi); isPhi {
+						continue
+					}
+					if add, ok := v.(*ssa.BinOp); ok && add.Op == token.ADD {
+						for _, o := range []ssa.Value{add.X, add.Y} {
+							if k, ok := constStr(o); ok && outside(k) {
+								markers[k] = true
+							}
+						}
+					} else {
+						plainLeaf = true
+					}
 				}
 			}
 		}
@@ -993,5 +1008,89 @@ func ruleC14_9(c *Ctx) {
 		c.Fail("C14.9", "directory-marker", desc, c.P.ShortName(keyer)+": the decoder does not remove the marker "+fmt.Sprint(sortedKeys(markers))+"; key listing fails for fragmented keys")
 	default:
 		c.Pass("C14.9", "directory-marker", desc, c.P.ShortName(namer)+" marker "+fmt.Sprint(sortedKeys(markers)), c.P.ShortName(keyer))
+	}
+}
+
+// ruleC14_10: the key may be any byte string, the empty one included. The encoding of the empty key is the empty string,
+// which names no file: Set fails for it (or, worse, addresses the cache directory itself). Every return of a file namer
+// is a non-empty constant or is dominated by a test that the key (or its encoding) is not empty.
+func ruleC14_10(c *Ctx) {
+	fp := c.P.Pkg("store/fscache")
+	if fp == nil {
+		return
+	}
+	desc := "a name derived from the key is returned only where the key (or its encoding) was tested to be non-empty"
+	n := 0
+	for _, fn := range c.P.RepoFuncs {
+		if fn.Pkg != fp || fn.Parent() != nil {
+			continue
+		}
+		ps, rs := sigParams(fn), sigResults(fn)
+		if !(len(ps) == 1 && len(rs) == 1 && isStringType(ps[0]) && isStringType(rs[0]) && callsNamed(fn, "EncodeToString")) {
+			continue
+		}
+		fromKey := func(v ssa.Value) bool {
+			hit := false
+			c.P.TraceBack(v, TraceOpts{ThroughOps: true, ThroughExtern: true, NoHeapFields: true}, func(w ssa.Value, _ []int) bool {
+				if p, ok := w.(*ssa.Parameter); ok && p.Parent() == fn {
+					hit = true
+					return false
+				}
+				return true
+			})
+			return hit
+		}
+		for _, b := range fn.Blocks {
+			r, ok := b.Instrs[len(b.Instrs)-1].(*ssa.Return)
+			if !ok || len(r.Results) != 1 {
+				continue
+			}
+			if k, isC := constStr(r.Results[0]); isC && k != "" {
+				continue
+			}
+			n++
+			where := c.P.ShortName(fn) + "@" + c.P.InstrPos(r)
+			tested := ""
+			for _, dc := range dominatingConds(b) {
+				for _, lf := range condLeaves(dc.cond, dc.onTrue) {
+					bo, ok := lf.v.(*ssa.BinOp)
+					if !ok {
+						continue
+					}
+					op := bo.Op
+					if !lf.val {
+						op = negTok(op)
+					}
+					l, rr := bo.X, bo.Y
+					if _, lc := l.(*ssa.Const); lc {
+						l, rr = rr, l
+						op = swapTok(op)
+					}
+					// s != ""
+					if k, isC := constStr(rr); isC && k == "" && op == token.NEQ && isStringType(l.Type()) && fromKey(l) {
+						tested = c.P.InstrPos(bo)
+					}
+					// len(s) != 0, len(s) > 0, len(s) >= 1
+					if k, isK := constInt(rr); isK {
+						if lc, isLen := l.(*ssa.Call); isLen {
+							if bi, isB := lc.Call.Value.(*ssa.Builtin); isB && bi.Name() == "len" && fromKey(lc.Call.Args[0]) {
+								if (k == 0 && (op == token.NEQ || op == token.GTR)) || (k == 1 && op == token.GEQ) {
+									tested = c.P.InstrPos(bo)
+								}
+							}
+						}
+					}
+				}
+			}
+			key := fmt.Sprintf("name-non-empty fn=%s#%d", c.P.ShortName(fn), n)
+			if tested != "" {
+				c.Pass("C14.10", key, desc, where+" under "+tested)
+			} else {
+				c.Fail("C14.10", key, desc, where+": returned without a test for the empty key; the empty key encodes to the empty file name: Set(\"\", v) fails and Get(\"\") never finds it")
+			}
+		}
+	}
+	if n == 0 {
+		c.Undecided("C14.10", "name-non-empty", desc, "no file namer with a key-derived return in store/fscache")
 	}
 }
